@@ -164,9 +164,15 @@ def scalar_data(rng, n, kind=None):
 
 def euler_prim(rng, n, kind=None, mach_max=2.5, ratio=10.0):
     """primitive Euler data (rho, u, p) of n cells"""
-    kind = kind or str(rng.choice(["random", "step", "smooth", "uniform"]))
+    kind = kind or str(rng.choice(["random", "step", "smooth", "uniform", "stream"]))
     r0, p0 = 10 ** rng.uniform(-1, 1), 10 ** rng.uniform(-1, 1)
-    if kind == "uniform":
+    if kind == "stream":
+        # one stream direction everywhere (all cells super- or all subsonic, to the left or to the right) with small smooth variations
+        x = (np.arange(n) + 0.5) / n
+        rho = smooth(rng, x, 1.0, r0, r0 * 1.1); p = smooth(rng, x, 1.0, p0, p0 * 1.1)
+        m0 = float(rng.uniform(1.3, max(1.4, mach_max)) if rng.random() < 0.6 else rng.uniform(0.1, 0.8)) * float(rng.choice([-1.0, 1.0]))
+        u = m0 * np.sqrt(1.4 * p0 / r0) * smooth(rng, x, 1.0, 0.95, 1.05)
+    elif kind == "uniform":
         rho, p = np.full(n, r0), np.full(n, p0)
         u = np.full(n, rng.uniform(-mach_max, mach_max) * np.sqrt(1.4 * p0 / r0))
     elif kind == "random":
@@ -191,9 +197,14 @@ def euler_prim(rng, n, kind=None, mach_max=2.5, ratio=10.0):
 
 
 def sw_prim(rng, n, kind=None, froude_max=2.5, ratio=10.0, g=9.81):
-    kind = kind or str(rng.choice(["random", "step", "smooth"]))
+    kind = kind or str(rng.choice(["random", "step", "smooth", "stream"]))
     h0 = 10 ** rng.uniform(-1, 1)
-    if kind == "random":
+    if kind == "stream":
+        x = (np.arange(n) + 0.5) / n
+        h = smooth(rng, x, 1.0, h0, h0 * 1.1)
+        f0 = float(rng.uniform(1.3, max(1.4, froude_max)) if rng.random() < 0.6 else rng.uniform(0.1, 0.8)) * float(rng.choice([-1.0, 1.0]))
+        u = f0 * np.sqrt(g * h0) * smooth(rng, x, 1.0, 0.95, 1.05)
+    elif kind == "random":
         h = h0 * ratio ** rng.uniform(-0.5, 0.5, n)
         u = rng.uniform(-froude_max, froude_max, n) * np.sqrt(g * h)
     elif kind == "step":
@@ -205,6 +216,12 @@ def sw_prim(rng, n, kind=None, froude_max=2.5, ratio=10.0, g=9.81):
         h = smooth(rng, x, 1.0, h0, h0 * rng.uniform(1.05, ratio ** 0.5))
         u = smooth(rng, x, 1.0, -1.0, 1.0) * rng.uniform(0, froude_max) * np.sqrt(g * h0)
     return [np.asarray(h, float), np.asarray(u, float)], kind
+
+
+def refused_integer_field(exc):
+    """the unchanged library stops the time integration of an integer-typed field with numpy's casting error (add_res does
+    `data += dt*residual`): loud, outside the properties -- such a case is skipped; a run that goes through is judged"""
+    return isinstance(exc, TypeError) and "Cannot cast ufunc" in str(exc)
 
 
 def fdata_prim(model, mesh, prim):
@@ -283,6 +300,26 @@ def decoy_models(rng, family=None):
     return out
 
 
+def foreign_field(rng, model, mesh, f):
+    """the same data in a field object that carries ANOTHER model object of the same family with other parameters (an initial field
+    built once and reused in a parameter sweep): the discretisation's own model is the one that counts"""
+    gam = float(rng.choice([1.15, 1.3, 1.67, 1.9]))
+    eq = getattr(model, "equation", None)
+    if isinstance(model, euler.euler2d):
+        other = euler.euler2d(gamma=gam)
+    elif isinstance(model, euler.nozzle):
+        other = euler.nozzle(lambda x: 2.0 + 0.3 * x, gamma=gam)
+    elif eq == "euler":
+        other = euler.euler1d(gamma=gam)
+    elif eq == "shallowwater":
+        other = shw.shallowwater1d(g=float(rng.choice([0.5, 3.3, 25.0])))
+    elif eq == "convection":
+        other = conv.model(float(rng.choice([-7.0, 0.01, 13.0])))
+    else:
+        other = burgers.model()
+    return ffield.fdata(other, mesh, [np.array(d, copy=True) for d in f.data], t=f.time)
+
+
 def maybe_decoy(rng, prob=0.3):
     """to be called right after building the object(s) under test directly (not through make_model)"""
     if rng.random() < prob:
@@ -319,6 +356,8 @@ def _make_model(mname, rng, source=None, gamma=None, g=None, a=None, section=Non
 
 
 def prim_for(mname, model, rng, n, dkind=None, mach_max=2.0, ratio=10.0):
+    if mname in ("convection", "burgers") and dkind == "stream":
+        dkind = "smooth"
     if mname in ("convection",):
         q, k = scalar_data(rng, n, dkind)
         return [q], k
@@ -328,8 +367,8 @@ def prim_for(mname, model, rng, n, dkind=None, mach_max=2.0, ratio=10.0):
             q = q + 0.5
         return [q], k
     if mname == "shallowwater":
-        return sw_prim(rng, n, dkind if dkind in ("random", "step", "smooth") else None, froude_max=mach_max, ratio=ratio, g=model.g)
-    return euler_prim(rng, n, dkind if dkind in ("random", "step", "smooth", "uniform") else None, mach_max=mach_max, ratio=ratio)
+        return sw_prim(rng, n, dkind if dkind in ("random", "step", "smooth", "stream") else None, froude_max=mach_max, ratio=ratio, g=model.g)
+    return euler_prim(rng, n, dkind if dkind in ("random", "step", "smooth", "uniform", "stream") else None, mach_max=mach_max, ratio=ratio)
 
 
 def open_bc(mname, model, rng, prim, side):
